@@ -139,6 +139,8 @@ type g2lFn struct {
 	brk      *brkTarget
 	monad    string
 	want     types.Type // expected type of the expression being compiled (for nil)
+	objNames map[types.Object]string
+	usedName map[string]bool
 	structs  map[string]*types.Named
 }
 
@@ -462,7 +464,7 @@ func (f *g2lFn) expr(b *binds, e ast.Expr) string {
 			}
 			f.bad(e, "package variable %s", e.Name)
 		}
-		return leanIdent(e.Name)
+		return f.name(e)
 	case *ast.BasicLit:
 		f.bad(e, "literal %s", e.Value)
 	case *ast.UnaryExpr:
